@@ -204,6 +204,49 @@ def search(ctx):
             if bad:
                 found.append({"clause": "addition moves keys only onto the new node", "input": {"nodes": final, "added": r, "key": bad[0]},
                               "observed": "key moved elsewhere", "expected": "old owner or new node", "size": len(final)})
+    # 2b. one long-lived hasher: lookups interleaved with add/remove (incl. same-size swaps) must always follow the rule
+    n_live = 0
+    for _ in range(30 if ctx.quick else 400):
+        rh = RendezvousHash()
+        rh.nodes = []
+        cur = []
+        hist = []
+        for x in rng.sample(NAMES, 3):
+            rh.add_node(x)
+            cur.append(x)
+            hist.append(("add", x))
+        for step in range(10):
+            kind = rng.choice(["lookup", "swap", "add", "remove"])
+            if kind == "swap" and len(cur) < len(NAMES) and cur:
+                x = rng.choice(cur)
+                y = rng.choice([z for z in NAMES if z not in cur])
+                rh.remove_node(x)
+                cur.remove(x)
+                rh.add_node(y)
+                cur.append(y)
+                hist += [("remove", x), ("add", y)]
+            elif kind == "add" and len(cur) < len(NAMES):
+                y = rng.choice([z for z in NAMES if z not in cur])
+                rh.add_node(y)
+                cur.append(y)
+                hist.append(("add", y))
+            elif kind == "remove" and len(cur) > 1:
+                x = rng.choice(cur)
+                rh.remove_node(x)
+                cur.remove(x)
+                hist.append(("remove", x))
+            ks = ["key%d" % i for i in range(6)]
+            exp = ctx.oracle.call_many([(5, (list(cur), k, 0)) for k in ks])
+            hist.append(("lookup", len(ks)))
+            for k, e in zip(ks, exp):
+                n_live += 1
+                got = ("ok", rh.get_node(k))
+                if got != e:
+                    found.append({"clause": "placement depends only on the key and the set of servers in rotation (long-lived hasher)",
+                                  "input": {"history": hist[:], "key": k, "nodes": list(cur)}, "observed": repr(got), "expected": repr(e), "size": len(hist)})
+                    break
+            if found and found[-1].get("size") == len(hist):
+                break
     # 3. HashClient routes by the same rule; equivalent spellings give the same placement
     specs = [("10.0.0.1", 11211), ("10.0.0.2", 11211), ("cache-a", 11212), "/tmp/mc.sock"]
     hc = HashClient(specs)
@@ -232,7 +275,7 @@ def search(ctx):
     if len(digs) != 1 or "" in digs:
         found.append({"clause": "placement does not depend on the process or hash randomisation", "input": "PYTHONHASHSEED in {0,1,2,4242}",
                       "observed": "%d distinct placements" % len(digs), "expected": "1", "size": 0})
-    ctx.search_summary = {"oracle_comparisons": n_oracle, "history_trials": n_hist, "routing_checks": n_route,
+    ctx.search_summary = {"oracle_comparisons": n_oracle, "history_trials": n_hist, "long_lived_lookups": n_live, "routing_checks": n_route,
                           "spelling_pairs": len(spell), "hashseed_processes": 4}
     found.sort(key=lambda v: v["size"])
     return found[:1]
